@@ -182,6 +182,27 @@ func textValues(tier string) []*Opnd {
 	for _, v := range WVecs(3, S7) {
 		base = append(base, mkWords(false, v, 0, 0, 0))
 	}
+	// long mantissas: one repeated word with an exception (also a zero word) at every index
+	longLens := []int{4, 5, 8, 9, 17}
+	if thorough {
+		longLens = append(longLens, 6, 7, 16, 33, 64)
+	}
+	for _, n := range longLens {
+		for _, w := range []uint64{BW - 1, 1234567890123456789} {
+			for i := 0; i < n; i++ {
+				v := make([]uint64, n)
+				for k := range v {
+					v[k] = w
+				}
+				if i < n-1 {
+					v[i] = 0
+				} else {
+					v[i] = BW / 10
+				}
+				base = append(base, mkWords(false, v, 0, 0, 0))
+			}
+		}
+	}
 	var exps []int64
 	for e := int64(-25); e <= 25; e++ {
 		exps = append(exps, e)
@@ -295,7 +316,7 @@ func textLayers(tier string) []Layer {
 	}, {
 		Name:   "T1-roundtrip",
 		Units:  (n + chunk - 1) / chunk,
-		Bounds: fmt.Sprintf("%d values (D(k) ∪ run-length strings ∪ W(3,S7) with low/interior zero words) × exponents (sub-word, multi-word, %%g thresholds, every change of the printed exponent's digit count up to 10^9, range ends) × ±, plus ±0, ±Inf (also in variables that held finite values before); producers Text e/E/f/g/G/p (-1), b, Append, MarshalText, json.Marshal; consumers Parse(10), Parse(0), SetString, UnmarshalText, json.Unmarshal at receiver precision {MinPrec, MinPrec+1, x.prec, 0}, fresh receivers and (for a third of the producer/consumer pairs) reused ones (40-word dirty buffer; empty mantissa over a dirty array)", n),
+		Bounds: fmt.Sprintf("%d values (D(k) ∪ run-length strings ∪ W(3,S7) with low/interior zero words ∪ 4–17-word (thorough –64) mantissas of one repeated word with a zero word at every index) × exponents (sub-word, multi-word, %%g thresholds, every change of the printed exponent's digit count up to 10^9, range ends) × ±, plus ±0, ±Inf (also in variables that held finite values before); producers Text e/E/f/g/G/p (-1), b, Append, MarshalText, json.Marshal; consumers Parse(10), Parse(0), SetString, UnmarshalText, json.Unmarshal at receiver precision {MinPrec, MinPrec+1, x.prec, 0}, fresh receivers and (for a third of the producer/consumer pairs) reused ones (40-word dirty buffer; empty mantissa over a dirty array)", n),
 		Run: func(c *Ctx, u int) {
 			if vals == nil {
 				vals = textValues(tier)
